@@ -486,7 +486,8 @@ def energy_job(job):
     from EasyFEA.Geoms import Domain, Point
 
     law, opt, dtm, meshname = prog["law"], prog["opt"], prog["dt"], prog["mesh"]
-    pid = f"{law}/{opt}/dt{dtm}/{meshname}"
+    save = int(prog.get("save", 1))
+    pid = f"{law}/{opt}/dt{dtm}/{meshname}/save{save}"
     dim = int(meshname[0])
     elem = meshname.split("-")[1]
     with quiet():
@@ -520,7 +521,8 @@ def energy_job(job):
         try:
             with quiet():
                 sim.Solve()
-                sim.Save_Iter()
+                if (k + 1) % save == 0:
+                    sim.Save_Iter()
         except AssertionError as ex:
             if "did not converge" in str(ex) or "det(F)" in str(ex):
                 conv = False  # "for any step size that converges"
@@ -532,7 +534,7 @@ def energy_job(job):
         vv = sim._Get_v_n(pt)
         E.append(0.5 * float(vv @ (M @ vv)) + float(sim._Calc_W()))
         d = abs(E[-1] - E[0]) / E[0]
-        steps.append({"n": k + 1, "drift_ppb": int(min(round(d * 1e9), 2_000_000_000))})
+        steps.append({"n": k + 1, "drift_ppb": int(min(round(d * 1e9), 100_000_000)) if np.isfinite(d) else 100_000_000})
     return {"id": pid, "conserving": bool(prog["conserving"]), "steps": steps, "converged": conv, "umax": float(np.abs(sim.displacement).max()), "E0": E[0] if E else 0.0}
 
 
